@@ -59,8 +59,10 @@ Inductive op : Type :=
 | ORemoveIf (m r : Z)                     (* Remove(filter) with filter(k) = (k mod m == r): the iterator loop *)
 | OCopy                                   (* copy constructor + swap *)
 | OAddAt (k v : Z)                        (* pos = Find(k) failed; Add(pos, item): pvAdd with the hash code kept in the position *)
-| OInsertNoMem (k v : Z).                 (* insert while the allocation of a new bucket array is refused (bad_alloc):
+| OInsertNoMem (k v : Z)                  (* insert while the allocation of a new bucket array is refused (bad_alloc):
                                              HashSetSettings::overloadIfCannotGrow -> pvAddNogrow on the existing table *)
+| OInsertFail (k v : Z).                  (* InsertCrt / Insert whose item creator (or the key's copy constructor) throws, possibly after
+                                             writing the key bytes: strong guarantee -- nothing may change, nothing of the item may be visible *)
 
 (* operations on a pair of containers a, b plus one ExtractedItem holder *)
 Inductive wop : Type :=
@@ -416,6 +418,12 @@ Section HashModel.
       match hfind s k with
       | Some _ => (s, RBool false)
       | None => match hadd_nomem s (k, v) with Some s' => (s', RBool true) | None => (s, RExn) end
+      end
+    | OInsertFail k v =>       (* pvInsert: a present key returns before the creator runs; otherwise the creator throws inside
+                                  Bucket::AddCrt (pvAddNogrow, or pvAddGrow which then destroys the new table) *)
+      match hfind s k with
+      | Some _ => (s, RBool false)
+      | None => (s, RExn)
       end
     end.
 
